@@ -138,6 +138,8 @@ pub const ROOTS: &[&str] = &[
     // a pinned pawn on the seventh rank whose only move captures the pinner and promotes
     "7b/6P1/5K2/8/8/8/8/k7 w - - 0 1", "K7/8/8/8/8/5k2/6p1/7B b - - 0 1", "q7/1P6/2K5/8/8/8/8/7k w - - 0 1", "7K/8/8/8/8/2k5/1p6/Q7 b - - 0 1",
     "3r4/3P4/3K4/8/8/8/8/k7 w - - 0 1", "8/8/8/8/8/3k4/3p4/3R3K b - - 0 1",
+    // sixteen mobile men and two en-passant capturers: the move list is filled to its last slot
+    "k7/8/8/2PpP3/8/NNNNNNN1/NNNNNN2/K7 w - d6 0 1", "k7/nnnnnn2/nnnnnnn1/8/2pPp3/8/8/K7 b - d3 0 1", "4k3/8/8/2PpP3/8/PP1P1PPP/8/RNBQKBNR w KQ d6 0 1",
     // crowded but legal
     "rnbqkbnr/pppppppp/8/8/8/8/PPPPPPPP/RNBQKBNR b KQkq - 0 1", "QQQQ1k2/8/8/8/8/8/8/K7 w - - 0 1",
     "6k1/5ppp/8/8/8/8/5PPP/3R2K1 w - - 0 1", "7k/5Q2/6K1/8/8/8/8/8 b - - 0 1", "7k/8/5KQ1/8/8/8/8/8 w - - 0 1",
